@@ -123,22 +123,22 @@ def run(ctx, repo, tier):
                         elif sh == (Poly.const(n_total), Poly.const(n_total)):
                             shape_ok += 1
                         else:
-                            key = ("Shape", f"molgri/space/fullgrid.py:FullGrid.{g}", f"result shape {sh[0].pretty()} x {sh[1].pretty()} != ({n_total}, {n_total})")
-                            seen.setdefault(key, []).append((nb, no, nt, cart, ()))
+                            key = ("Shape", f"molgri/space/fullgrid.py:FullGrid.{g}", f"{g}: result is not (n_total, n_total)")
+                            seen.setdefault(key, []).append((nb, no, nt, cart, (f"{sh[0].pretty()} x {sh[1].pretty()} for n_total={n_total}",)))
                     vol = results["get_total_volumes"]
                     ln = value_len(vol)
                     if ln is not None and ln.is_const():
                         if ln.as_const() != n_total:
-                            key = ("Shape", "molgri/space/fullgrid.py:FullGrid.get_total_volumes", f"{ln.as_const()} volumes for {n_total} cells")
-                            seen.setdefault(key, []).append((nb, no, nt, cart, ()))
+                            key = ("Shape", "molgri/space/fullgrid.py:FullGrid.get_total_volumes", "get_total_volumes: number of volumes differs from the number of cells")
+                            seen.setdefault(key, []).append((nb, no, nt, cart, (f"{ln.as_const()} volumes for {n_total} cells",)))
                         else:
                             shape_ok += 1
                     arr = results["get_full_grid_as_array"]
                     if isinstance(arr, ObjV) and arr.ext == "ndarray" and "dims" in arr.attrs:
                         d0 = arr.attrs["dims"].items_p
                         if len(d0) == 2 and d0[0].is_const() and (d0[0].as_const() != n_total or d0[1] != Poly.const(7)):
-                            key = ("Shape", "molgri/space/fullgrid.py:FullGrid.get_full_grid_as_array", f"array shape {d0[0].pretty()} x {d0[1].pretty()} != ({n_total}, 7)")
-                            seen.setdefault(key, []).append((nb, no, nt, cart, ()))
+                            key = ("Shape", "molgri/space/fullgrid.py:FullGrid.get_full_grid_as_array", "get_full_grid_as_array: array is not (n_total, 7)")
+                            seen.setdefault(key, []).append((nb, no, nt, cart, (f"{d0[0].pretty()} x {d0[1].pretty()} for n_total={n_total}",)))
                         else:
                             shape_ok += 1
     ctx.extra["contexts"] = contexts
@@ -161,7 +161,8 @@ def run(ctx, repo, tier):
             key = "OPTCMP|molgri/naming.py:GridNameParser.__init__|self.N > 1"
         ctx.violate(rule, f"C19.escape.{kind}", f"{kind} can escape from FullGrid construction / getters "
                     f"({'; '.join(modes)} mode)" if kind != "Shape" else "result of a getter has the wrong shape", where.split(": ")[0] if ": " in where else where,
-                    construct=text[:300], witness=f"sizes (n_b, n_o, n_t) = {sizes[:6]}{' ...' if len(sizes) > 6 else ''}; "
+                    construct=text[:300], witness=(f"{guards[0]}; " if kind == "Shape" and guards else "") +
+                    f"sizes (n_b, n_o, n_t) = {sizes[:6]}{' ...' if len(sizes) > 6 else ''}; "
                     f"e.g. FullGrid('{nb}', '{no}', <{nt} radii>, position_grid_cartesian={cart})", key=key)
     if not seen:
         ctx.ok("EXC", "C19.escape", f"no AttributeError / IndexError / TypeError escapes in any of the {contexts} contexts "
